@@ -79,9 +79,13 @@ type c04World struct {
 	card  *lanceroSimCard
 	ls    *LanceroSource
 
+	runIndex             int // which run of the source object this is (0-based)
 	rows, cols, W, nchan int
 	nsamp                int
 	fpt                  int
+	lsync                int
+	nBlocks              int
+	clientBusy           bool // a mix request is in flight
 	framePeriod          time.Duration
 	horizon              int // frames for which ground truth (trigger plan) exists
 
@@ -117,17 +121,79 @@ func (w *c04World) chanOf(idx int) int {
 }
 
 func c04Body(env *simrt.Env) {
-	rows := 2 + simrt.Draw(11)
-	cols := 1 + simrt.Draw(4)
+	// One LanceroSource object lives through 1-3 runs: run, Stop, Configure again (same or another
+	// geometry, NSAMP, line period), Start again. Every run has its own card and ground truth and
+	// is checked with the full oracle.
+	nRuns := 1 + simrt.Draw(3)
+	resetViper(env.Dir)
+	startSinks(nil, func() int { return 0 })
+
+	// what NewLanceroSource does, with a simulated card as device 0
+	ls := new(LanceroSource)
+	ls.name = "Lancero"
+	ls.nsamp = 1
+	ls.channelsPerPixel = 2
+	ls.devices = map[int]*LanceroDevice{0: {devnum: 0}}
+	ls.ncards = 1
+
+	var prev *c04World
+	var samples []interface{}
+	for k := 0; k < nRuns; k++ {
+		w := c04NewWorld(env, ls, k, nRuns, prev)
+		w.run(k == nRuns-1)
+		samples = append(samples, w.sample())
+		prev = w
+	}
+	if nRuns == 1 {
+		env.Sample(samples[0])
+	} else {
+		env.Sample(map[string]interface{}{"runs_on_one_source_object": samples})
+	}
+}
+
+// c04Geometry draws the array of run k. Run 0: any. Later runs: the same again; another
+// columns x rows with the same product (the channel count stays, the order table must not);
+// any other; the same with another NSAMP / line period only.
+func c04Geometry(k int, prev *c04World) (rows, cols, how int) {
+	if k == 0 || prev == nil {
+		return 2 + simrt.Draw(11), 1 + simrt.Draw(4), 0
+	}
+	how = 1 + simrt.Draw(4)
+	switch how {
+	case 1: // same product, other shape
+		var alt [][2]int
+		for c := 1; c <= 4; c++ {
+			if prev.W%c == 0 {
+				if r := prev.W / c; r >= 2 && r <= 12 && c != prev.cols {
+					alt = append(alt, [2]int{r, c})
+				}
+			}
+		}
+		if len(alt) > 0 {
+			g := alt[simrt.Draw(len(alt))]
+			return g[0], g[1], how
+		}
+		return 2 + simrt.Draw(11), 1 + simrt.Draw(4), 3
+	case 2, 4: // unchanged geometry (4: only NSAMP / line period are drawn again)
+		return prev.rows, prev.cols, how
+	}
+	return 2 + simrt.Draw(11), 1 + simrt.Draw(4), how
+}
+
+func c04NewWorld(env *simrt.Env, ls *LanceroSource, k, nRuns int, prev *c04World) *c04World {
+	rows, cols, how := c04Geometry(k, prev)
 	fptMenu := []int{3, 2, 4, 5, 8, 13, 30}
 	fpt := fptMenu[simrt.Draw(len(fptMenu))]
 	nsampMenu := []int{1, 2, 4, 3, 16}
 	nsamp := nsampMenu[simrt.Draw(len(nsampMenu))]
+	if how == 2 {
+		fpt, nsamp = prev.fpt, prev.nsamp
+	}
 	style := simrt.Draw(4)
-	w := &c04World{env: env, rows: rows, cols: cols, W: rows * cols, nchan: 2 * rows * cols, nsamp: nsamp, fpt: fpt}
+	w := &c04World{env: env, ls: ls, runIndex: k, rows: rows, cols: cols, W: rows * cols, nchan: 2 * rows * cols, nsamp: nsamp, fpt: fpt}
 	// the line period (in 8 ns clocks) that gives about fpt frames per 50 ms reader tick
-	lsync := int(math.Round(6250000 / float64(fpt*rows)))
-	w.framePeriod = time.Duration(lsync*rows*8) * time.Nanosecond
+	w.lsync = int(math.Round(6250000 / float64(fpt*rows)))
+	w.framePeriod = time.Duration(w.lsync*rows*8) * time.Nanosecond
 	w.truth = lanceroSimNewTruth(rows, cols, style)
 	w.horizon = 60000 / w.W
 	if w.horizon > 3000 {
@@ -139,48 +205,58 @@ func c04Body(env *simrt.Env) {
 	waits := []time.Duration{10 * time.Millisecond, 3 * time.Millisecond, 25 * time.Millisecond}
 	w.card.waitStep = waits[simrt.Draw(len(waits))]
 	w.card.waitFrames = 4 + simrt.Draw(6)
-	nBlocks := 4 + simrt.Draw(30)
+	if nRuns == 1 {
+		w.nBlocks = 4 + simrt.Draw(30)
+	} else {
+		w.nBlocks = 3 + simrt.Draw(12)
+	}
+	nBlocks := w.nBlocks
 	w.card.onCaptureRun = func(first int) { w.planTriggers(first+2, nBlocks*fpt+4*fpt) }
 	if env.Faulted() {
 		w.card.allowFaults = true
 		w.card.gapsLeft = 1
 		w.card.gapWhole = simrt.DrawFault(4) == 3
 	}
-	env.Op("geometry %d columns x %d rows, about %d frames per reader tick (lsync %d), NSAMP %d, content style %d, %d blocks", cols, rows, fpt, lsync, nsamp, style, nBlocks)
+	what := []string{"", "same channel count, other shape", "unchanged", "other geometry", "unchanged geometry, other NSAMP / line period"}[how]
+	if k > 0 {
+		simrt.Hit("restart-" + []string{"", "same-product-other-shape", "unchanged", "other-geometry", "other-nsamp-lsync"}[how])
+		if prev.rows != rows {
+			simrt.Hit("restart-with-other-row-count")
+		}
+		what = " (restart of the same source object: " + what + ")"
+	}
+	env.Op("run %d of %d%s: geometry %d columns x %d rows, about %d frames per reader tick (lsync %d), NSAMP %d, content style %d, %d blocks", k+1, nRuns, what, cols, rows, fpt, w.lsync, nsamp, style, nBlocks)
+	return w
+}
 
+// run performs one Configure / Start / blocks (/ Stop) cycle on the shared source object.
+func (w *c04World) run(last bool) {
+	env, ls := w.env, w.ls
+	rows, cols, fpt := w.rows, w.cols, w.fpt
 	// per-run cringeGlobals.json
-	cg := map[string]int{"SETT": 10, "seqln": rows, "lsync": lsync, "testpattern": 0, "propagationdelay": 0, "NSAMP": nsamp, "carddelay": 0, "XPT": 0}
+	cg := map[string]int{"SETT": 10, "seqln": rows, "lsync": w.lsync, "testpattern": 0, "propagationdelay": 0, "NSAMP": w.nsamp, "carddelay": 0, "XPT": 0}
 	cgBytes, _ := json.Marshal(cg)
 	cgPath := filepath.Join(env.Dir, "cringeGlobals.json")
 	if err := os.WriteFile(cgPath, cgBytes, 0644); err != nil {
 		simrt.Fail("harness.setup", "harness:cringe-globals", "%v", err)
 	}
 	cringeGlobalsPath = cgPath
-	resetViper(env.Dir)
-	startSinks(nil, func() int { return w.blocks })
+	ls.devices[0].card = w.card
 
-	// what NewLanceroSource does, with the simulated card as device 0
-	ls := new(LanceroSource)
-	ls.name = "Lancero"
-	ls.nsamp = 1
-	ls.channelsPerPixel = 2
-	ls.devices = map[int]*LanceroDevice{0: {devnum: 0, card: w.card}}
-	ls.ncards = 1
-	w.ls = ls
 	config := LanceroSourceConfig{FiberMask: 0xffff, CardDelay: []int{1}, ActiveCards: []int{0}, FirstRow: 1}
 	if err := ls.Configure(&config); err != nil {
-		simrt.Fail("harness.setup", "harness:configure", "Configure: %v", err)
+		simrt.Fail("harness.setup", "harness:configure", "run %d: Configure: %v", w.runIndex+1, err)
 	}
 
 	// the steps of Start()
 	if err := ls.SetStateStarting(); err != nil {
-		simrt.Fail("harness.setup", "harness:start", "SetStateStarting: %v", err)
+		simrt.Fail("harness.setup", "harness:start", "run %d: SetStateStarting: %v", w.runIndex+1, err)
 	}
 	if err := ls.Sample(); err != nil {
-		simrt.Fail("harness.setup", "harness:sample", "Sample on a card that delivers well-formed frames: %v", err)
+		simrt.Fail("harness.setup", "harness:sample", "run %d: Sample on a card that delivers well-formed frames: %v", w.runIndex+1, err)
 	}
 	if got := ls.devices[0].ncols; got != cols || ls.nchan != w.nchan {
-		simrt.Fail("C04.geometry", "lancero:geometry-misdetected", "sampling a %d-column x %d-row card found %d columns, %d channels", cols, rows, got, ls.nchan)
+		simrt.Fail("C04.geometry", "lancero:geometry-misdetected", "run %d: sampling a %d-column x %d-row card found %d columns, %d channels", w.runIndex+1, cols, rows, got, ls.nchan)
 	}
 	if err := ls.PrepareChannels(); err != nil {
 		simrt.Fail("harness.setup", "harness:prepare-channels", "%v", err)
@@ -190,7 +266,7 @@ func c04Body(env *simrt.Env) {
 	}
 	ls.RunDoneActivate()
 	if err := ls.StartRun(); err != nil {
-		simrt.Fail("harness.setup", "harness:start-run", "StartRun on a card that delivers well-formed frames: %v", err)
+		simrt.Fail("harness.setup", "harness:start-run", "run %d: StartRun on a card that delivers well-formed frames: %v", w.runIndex+1, err)
 	}
 	w.card.running = true
 
@@ -206,10 +282,7 @@ func c04Body(env *simrt.Env) {
 	}
 
 	// the core loop's part
-	for w.blocks < nBlocks {
-		if int(w.card.pos/int64(w.truth.frameSize)) > w.horizon-6*fpt-8 {
-			break // ground truth exhausted
-		}
+	takeBlock := func() bool {
 		if env.Faulted() && simrt.Chance(1, 12) {
 			steps := 5 + simrt.DrawFault(60)
 			simrt.Stall("lancero", steps)
@@ -218,13 +291,20 @@ func c04Body(env *simrt.Env) {
 		ch := ls.getNextBlock()
 		blk, ok := <-ch
 		if !ok {
-			simrt.Fail("C04.stream-ends", "lancero:block-channel-closed", "the block channel was closed after %d blocks although the card keeps delivering", w.blocks)
+			return false
 		}
 		if blk.err != nil {
 			simrt.Fail("C04.stream-ends", "lancero:error-block", "error block after %d blocks although the card keeps delivering: %v", w.blocks, blk.err)
 		}
 		w.checkBlock(blk)
 		w.blocks++
+		return true
+	}
+	exhausted := func() bool { return int(w.card.pos/int64(w.truth.frameSize)) > w.horizon-6*fpt-8 }
+	for w.blocks < w.nBlocks && !exhausted() {
+		if !takeBlock() {
+			simrt.Fail("C04.stream-ends", "lancero:block-channel-closed", "the block channel was closed after %d blocks although the card keeps delivering", w.blocks)
+		}
 		switch simrt.Draw(8) { // the core loop's processing time
 		case 6:
 			time.Sleep(60 * time.Millisecond)
@@ -233,10 +313,37 @@ func c04Body(env *simrt.Env) {
 		}
 	}
 	w.done = true
+	if !last {
+		// a request of the client that is still in flight is served first (it needs the block assembly goroutine)
+		for w.clientBusy && !exhausted() {
+			if !takeBlock() {
+				simrt.Fail("C04.stream-ends", "lancero:block-channel-closed", "the block channel was closed after %d blocks although nobody stopped the source", w.blocks)
+			}
+		}
+		// Stop, as a client calls it; this task goes on doing what the core loop does: take blocks
+		// until the channel is closed, then declare the run done.
+		stopped := make(chan error, 1)
+		simrt.GoHarness("stop-client", func() { stopped <- ls.Stop() })
+		env.Op("run %d: Stop after %d blocks", w.runIndex+1, w.blocks)
+		for takeBlock() {
+			simrt.Hit("block-while-stopping")
+			if exhausted() {
+				simrt.Fail("C04.stop", "lancero:blocks-keep-coming-after-stop", "run %d: the source still delivers blocks %d frames after Stop was called", w.runIndex+1, 6*fpt)
+			}
+		}
+		ls.RunDoneDeactivate()
+		if err := <-stopped; err != nil {
+			simrt.Fail("C04.stop", "lancero:stop-failed", "run %d: Stop on the running source: %v", w.runIndex+1, err)
+		}
+		env.Op("run %d: stopped, %d blocks in all", w.runIndex+1, w.blocks)
+	}
 	w.finish()
-	env.Sample(map[string]interface{}{"columns": cols, "rows": rows, "frames_per_tick": fpt, "nsamp": nsamp, "blocks": w.blocks, "samples_per_channel": w.samples,
+}
+
+func (w *c04World) sample() interface{} {
+	return map[string]interface{}{"columns": w.cols, "rows": w.rows, "frames_per_tick": w.fpt, "nsamp": w.nsamp, "blocks": w.blocks, "samples_per_channel": w.samples,
 		"first_emitted_frame": w.firstEmitted, "driver_reads": w.card.nReads, "largest_read_bytes": w.card.maxChunk, "mix_requests": w.mixRequests,
-		"trigger_edges": w.nTrigEdges, "gaps": len(w.card.gaps), "blocks_reporting_loss": len(w.dropBlocks)})
+		"trigger_edges": w.nTrigEdges, "gaps": len(w.card.gaps), "blocks_reporting_loss": len(w.dropBlocks)}
 }
 
 // planTriggers draws the external-trigger level for the frames of the run (called when
@@ -327,7 +434,10 @@ func (w *c04World) mixClient(nreq int) {
 		}
 		w.mixRequests++
 		w.env.Op("mix request #%d after %d blocks: channels %v fractions %v", i+1, k0, mfo.ChannelIndices, mfo.MixFractions)
-		if _, err := w.ls.ConfigureMixFraction(mfo); err != nil {
+		w.clientBusy = true
+		_, err := w.ls.ConfigureMixFraction(mfo)
+		w.clientBusy = false
+		if err != nil {
 			simrt.Fail("C04.mix-request", "lancero:mix-request-refused", "ConfigureMixFraction(%v, %v) on feedback channels: %v", mfo.ChannelIndices, mfo.MixFractions, err)
 		}
 		k1 := w.blocks
